@@ -227,12 +227,14 @@ func appliedEvents(cau chain.ApplyUpdate, walletAddress types.Address) (events [
 		fce := fced.V2FileContractElement.Move()
 
 		_, missed := fced.Resolution.(*types.V2FileContractExpiration)
-		if fce.V2FileContract.HostOutput.Address == walletAddress {
-			outputID := fce.ID.V2HostOutputID()
-			sce, ok := siacoinElements[outputID]
-			if !ok {
-				panic("missing siacoin element")
-			}
+		// key the payouts on the address of the created output: the final
+		// outputs of a renewal need not pay the contract's renter and host
+		// addresses
+		hostOutputID, renterOutputID := fce.ID.V2HostOutputID(), fce.ID.V2RenterOutputID()
+		if sce, ok := siacoinElements[hostOutputID]; !ok {
+			panic("missing siacoin element")
+		} else if sce.SiacoinOutput.Address == walletAddress {
+			outputID := hostOutputID
 
 			addEvent(types.Hash256(outputID), EventTypeV2ContractResolution, EventV2ContractResolution{
 				Resolution: types.V2FileContractResolution{
@@ -244,12 +246,10 @@ func appliedEvents(cau chain.ApplyUpdate, walletAddress types.Address) (events [
 			}, sce.MaturityHeight)
 		}
 
-		if fce.V2FileContract.RenterOutput.Address == walletAddress {
-			outputID := fce.ID.V2RenterOutputID()
-			sce, ok := siacoinElements[outputID]
-			if !ok {
-				panic("missing siacoin element")
-			}
+		if sce, ok := siacoinElements[renterOutputID]; !ok {
+			panic("missing siacoin element")
+		} else if sce.SiacoinOutput.Address == walletAddress {
+			outputID := renterOutputID
 
 			addEvent(types.Hash256(outputID), EventTypeV2ContractResolution, EventV2ContractResolution{
 				Resolution: types.V2FileContractResolution{
